@@ -121,6 +121,14 @@ func encSigs(l []detection.Signature) string {
 
 var callPool = []string{"net.Dial", "time.Sleep", "os.Exec", "fmt.Println", "builtin:len", "invoke:io.Reader.Read",
 	"go:closure:func()", "defer:sync.Mutex.Unlock", "net.DialTimeout", "exec.Command", "os.Getenv", "http.Get"}
+
+// names as long as instantiated generics and callbacks produce them: two calls that share their first
+// 300 bytes are two calls
+func init() {
+	long := "invoke:" + strings.Repeat("github.com/example/generated/verylongmodulepath.", 6) + "Client[map[string][]func(context.Context, *Request) (*Response, error)]."
+	callPool = append(callPool, long+"Send", long+"Recv")
+}
+
 var typePool = []string{"int", "string", "*T", "[]byte", "error", "map[string]int", "chan int", "func()"}
 var litPool = []string{"", "ab", "abc", "/bin/sh", "http://c2.example/beacon", "\"quoted\"", "'x'", "`raw string`", "PASSWORD",
 	"password=", "GET / HTTP/1.1", "ünïcödé", "AAAA", "aaaa", "\"\"\"", "x\"y", "%s:%d"}
